@@ -3,6 +3,7 @@ import EraVerif.Proofs.C10Std
 import EraVerif.Proofs.C10Read
 import EraVerif.Proofs.C10Noise
 import EraVerif.Proofs.C10Verify
+import EraVerif.Proofs.C10Votes
 import EraVerif.Model.C10Frame
 import EraVerif.Model.C10Canon
 
@@ -30,7 +31,7 @@ open EraVerif.Gen.MuxConst EraVerif.Gen.NoiseConst
 open EraVerif.Model.C10 EraVerif.Model.C10.Mux EraVerif.Model.C10.Frame EraVerif.Model.C10.Noise
 open EraVerif.Model.C10.Verify EraVerif.Model.C10.Canon
 open EraVerif.Proofs.C10Mux EraVerif.Proofs.C10Std EraVerif.Proofs.C10Read EraVerif.Proofs.C10Noise
-open EraVerif.Proofs.C10Verify
+open EraVerif.Proofs.C10Verify EraVerif.Proofs.C10Votes
 
 /-! ## 1. Multiplexer: frame dispatch on the header bits (mux/mod.rs:213-276, header.rs) -/
 
@@ -616,6 +617,33 @@ theorem implied_block_panics_at_max :
     (impliedBlock ⟨0, 0, [1], 1, 1⟩ 0 (.commit ⟨⟨⟨0, 0, 5⟩, ⟨18446744073709551615, 7⟩⟩, [true], true⟩)).isPanic = true ∧
     justificationVerify ⟨0, 0, [1], 1, 1⟩ (.commit ⟨⟨⟨0, 0, 5⟩, ⟨18446744073709551615, 7⟩⟩, [true], true⟩) = .ok () := by
   decide
+
+/-- **replica_vote_caches_total.** For every committee and every sequence of signed commit / timeout votes — any
+signer (member or not), any view up to `2⁶⁴−1`, any block number, any high vote / high certificate with bitmaps of
+any length, valid or invalid signatures — `on_commit` / `on_timeout` never reach
+`.expect("could not add message to CommitQC")`, `.expect("could not add message to TimeoutQC")`, the
+`remove(..).unwrap()`s, `Signers::weight`'s assertion or `get_justification`'s assertion: every vote is accepted or
+rejected. (The duplicate-signer guard on the "latest view per signer" map is what keeps `CommitQC::add` /
+`TimeoutQC::add` from failing: a set bit in a cached partial certificate implies a recorded view at least as high.) -/
+theorem replica_vote_caches_total (c : Ctx) (ops : List Votes.Op) :
+    ∃ s vs, Votes.runOps c Votes.St.init ops = .ok (s, vs) ∧ vs.length = ops.length := by
+  obtain ⟨s, vs, h, _, hl⟩ := runOps_ok c ops Votes.St.init (vinv_init c)
+  exact ⟨s, vs, h, hl⟩
+
+/-- the guard is load-bearing: adding the same signer twice to a partial certificate is an error of `CommitQC::add`,
+which the handler turns into a panic -/
+theorem commit_qc_add_twice_fails :
+    Votes.commitQcAdd ⟨0, 0, [1, 1, 1], 3, 1⟩ ⟨5, ⟨⟨0, 0, 5⟩, ⟨1, 7⟩⟩, [false, true, false]⟩ 1
+      ⟨some 1, true, ⟨⟨0, 0, 5⟩, ⟨1, 7⟩⟩⟩ = .err "DuplicateSigner" := by decide
+
+/-- non-vacuity: three votes of weight 1 each reach the quorum 3, the certificate is consumed and the view advances;
+a repeated vote is rejected, a vote for view `2⁶⁴−1` from a quorum wraps the view to 0 (release semantics) -/
+example :
+    (Votes.runOps ⟨0, 0, [1, 1, 1], 3, 1⟩ Votes.St.init
+      [.commit ⟨some 0, true, ⟨⟨0, 0, 5⟩, ⟨1, 7⟩⟩⟩, .commit ⟨some 0, true, ⟨⟨0, 0, 5⟩, ⟨1, 7⟩⟩⟩,
+       .commit ⟨some 1, true, ⟨⟨0, 0, 5⟩, ⟨1, 7⟩⟩⟩, .commit ⟨some 2, true, ⟨⟨0, 0, 5⟩, ⟨1, 7⟩⟩⟩]).bind
+      (fun r => .ok (r.1.view, r.2)) =
+    .ok (6, [.accepted, .rejected "DuplicateSigner", .accepted, .accepted]) := by decide
 
 /-- **F6 (known, profile-dependent).** `ViewNumber::next` wraps in the shipping profile and panics with overflow
 checks; it runs in the queue selection function and in `on_new_view` / `on_proposal` *before* any verification,
